@@ -32,7 +32,7 @@ func runC07(c *Ctx, r *Run) {
 	r.Rule("RG-2", "FinalRoundNumber admits every reachable round")
 
 	H := c.LookupNamed("pkg/protocol", "MultiHandler")
-	acc := c.LookupMethod("pkg/protocol", "MultiHandler", "Accept")
+	acc := c.LookupBody("pkg/protocol", "MultiHandler", "Accept")
 	fin := c.LookupMethod("pkg/protocol", "MultiHandler", "finalize")
 	store := c.LookupMethod("pkg/protocol", "MultiHandler", "store")
 	dup := c.LookupMethod("pkg/protocol", "MultiHandler", "duplicate")
@@ -194,7 +194,7 @@ func runC07(c *Ctx, r *Run) {
 	// ---- OB-Q5 filter first: in Accept nothing that changes the session (abort, queue write, round processing) runs
 	// before the message passed canAccept (right session, protocol, sender, recipient, round window).
 	for _, hn := range []string{"MultiHandler", "TwoPartyHandler"} {
-		a := c.LookupMethod("pkg/protocol", hn, "Accept")
+		a := c.LookupBody("pkg/protocol", hn, "Accept")
 		if a == nil {
 			r.Unresolved("OB-Q5", "pkg/protocol."+hn+".Accept")
 			continue
@@ -465,7 +465,7 @@ func runC07(c *Ctx, r *Run) {
 // copy before anything is processed, and store never replaces an occupied slot. Shared by C07 (duplication in the
 // schedule), C06 (the echo hash vouches for the first copy, so the round must consume the first copy) and C03.
 func checkFirstCopyWins(c *Ctx, r *Run, rule string) {
-	acc := c.LookupMethod("pkg/protocol", "MultiHandler", "Accept")
+	acc := c.LookupBody("pkg/protocol", "MultiHandler", "Accept")
 	store := c.LookupMethod("pkg/protocol", "MultiHandler", "store")
 	dup := c.LookupMethod("pkg/protocol", "MultiHandler", "duplicate")
 	if acc == nil || store == nil {
